@@ -513,6 +513,26 @@ def r01g(model, ctx):
                 e = t.as_expr()
                 if e is not None and pmatch("__H0__ == (__H1__ & __H2__)", e) is not None:
                     cmp_ok = True
+        # empty-pattern safety (zero-width selectors produce the pattern ""): int("", 2) raises ValueError
+        mod = model.mod(rel)
+        for n in ast.walk(fn):
+            m = pmatch("int(_V_E, 2)", n)
+            if m is None:
+                continue
+            e = m["_V_E"]
+            safe = (isinstance(e, ast.BinOp) and isinstance(e.op, ast.Add) and const_str(e.left) == "0") or \
+                   (isinstance(e, ast.BoolOp) and isinstance(e.op, ast.Or) and const_str(e.values[-1]) == "0")
+            p = mod.parent(n)
+            while not safe and p is not None and p is not fn:
+                if isinstance(p, ast.If) and pmatch('"-" in pattern', p.test) is not None and \
+                        any(n is x for s_ in p.body for x in ast.walk(s_)):
+                    safe = True
+                p = mod.parent(p)
+            ctx.check(safe, "R-01g", f"{name}:empty-pattern:{unparse(e)[:50]}",
+                      "int(.., 2) argument cannot be the empty string",
+                      f"`int({unparse(e)}, 2)` raises ValueError for the empty pattern that a zero-width selector "
+                      f"produces; the sibling decoders guard this with `\"0\" + ...` / `pattern or \"0\"` / "
+                      f"a `\"-\" in pattern` test", f"{rel}:{n.lineno}")
         ctx.check(mask_ok and val_ok and cmp_ok and not extra, "R-01g", name,
                   "'-'->(mask 0, value 0), '0'/'1'->(mask 1, value bit); test: value == (mask & test)",
                   f"pattern decoding deviates from ('-'->mask 0/value 0, '0'/'1'->mask 1/value bit; "
